@@ -1,6 +1,7 @@
 (* Property C05 -- an interrupted clone can always be completed by re-running in place. *)
 From Bita Require Import Model.Base Model.ChunkIndex Model.CloneOutput Model.CloneSpec.
-From Bita Require Import Proofs.Planner Proofs.CloneCorrect Proofs.CloneFinal.
+From Bita Require Import Gen.Generated Model.OutFile.
+From Bita Require Import Proofs.Planner Proofs.CloneCorrect Proofs.CloneFinal Proofs.OutFileProofs.
 
 (* (ii) a run in which write number k failed or was cut short (any k below the number of writes of the
    uninterrupted run, any tear length t) never reports success *)
@@ -25,6 +26,18 @@ Theorem C05_rerun_completes :
     o_err (cr_state r) = None /\ cr_index r = [] /\ takeN (lenN src) (o_file (cr_state r)) = src.
 Proof. exact rerun_completes_final. Qed.
 
+(* (ii) at the level of the real output file: tokio's fs::File reports a failed write only at the NEXT write or
+   flush. With the flush before the output is finished (a fact re-extracted from src/clone_cmd.rs on every
+   run), ANY failed write makes the run fail, on regular files and block devices; without it the failure
+   of the last write would be lost (witness). *)
+Theorem C05_output_file_reports_failed_write : forall regular fates,
+  In false fates -> clone_run clone_flushes_output regular fates = false.
+Proof. exact flushed_clone_reports_failed_write. Qed.
+
+Theorem C05_unflushed_would_lose_last_error :
+  exists fates, In false fates /\ clone_run false true fates = true.
+Proof. exact unflushed_clone_loses_last_error. Qed.
+
 Example C05_example :
   let cidx := [(1, {| l_size := 3; l_offs := [0] |}); (0, {| l_size := 2; l_offs := [3;5] |})] in
   let arch := [(1, [3;4;5]); (0, [1;2])] in
@@ -32,5 +45,7 @@ Example C05_example :
   o_err (cr_state r) <> None /\ o_file (cr_state r) = [3;4;5;1].
 Proof. vm_compute. split; [discriminate|reflexivity]. Qed.
 
+Print Assumptions C05_output_file_reports_failed_write.
+Print Assumptions C05_unflushed_would_lose_last_error.
 Print Assumptions C05_failed_write_not_ok.
 Print Assumptions C05_rerun_completes.
